@@ -60,6 +60,11 @@ BODIES = [
     (["var fs = [];", "for i in 0..3 {", "    var a = i * 2;", "    if i == 1 { continue; }", "    fs.push(|| a);", "}",
       "print(fs.len());", "for f in fs { print(f()); }"], ["2", "0", "4"]),
     (["fn find() { for i in 0..5 { var sq = i * i; var g = || sq; if sq > 3 { return g; } } return nil; }", "print(find()());"], ["4"]),
+    # capture order different from declaration order (high slot, low slot, then one in between), then scope exit
+    (["fn make() { var a = \"a\"; var b = \"b\"; var c = \"c\"; var gc = || c; var ga = || a; var gb = || b; var sa = |v| { a = v; }; return [ga, gb, gc, sa]; }",
+      "fn bystander(x) { var r = make(); r[3](\"A\"); return [x, r[0](), r[1](), r[2]()]; }", "print(bystander(\"x\"));"], ["[x, A, b, c]"]),
+    (["fn mk4() { var w = 1; var x = 2; var y = 3; var z = 4; var fz = || z; var fx = || x; var fy = || y; var fw = || w; w = 10; x = 20; y = 30; z = 40; return [fw, fx, fy, fz]; }",
+      "var r = mk4();", "print(r[0]()); print(r[1]()); print(r[2]()); print(r[3]());"], ["10", "20", "30", "40"]),
     # exception unwinding keeps captured variables
     (["var keep = nil;", "fn thrower() { var v = \"kept\"; keep = || v; throw \"x\"; }",
       "try { thrower(); } catch e { print(e); }", "print(keep());"], ["x", "kept"]),
